@@ -331,31 +331,29 @@ theorem cnt_getStream {α : Type} {N : Nat} (d : Dump) (b : Bytes) (ty : Nat) (r
     have hsz := getRawStream_size hs
     exact (cnt_catch (h s hsz)).mono (by omega)
 
-theorem cnt_readAll (ms : MemSizes) (b : Bytes) : CntLe (21 + 10 * (b.size / 8)) (readAll ms b) := by
-  unfold readAll
-  split
-  · exact (cnt_pure _).mono (by omega)
-  · rename_i d _
-    refine (cnt_bind (cnt_getStream (N := 3) _ _ _ _ (fun s _ => (cnt_readThreadList ms s b _).mono (by omega)))
-      (C := 18 + 9 * (b.size / 8)) (fun _ _ => ?_)).mono (by omega)
-    refine (cnt_bind (cnt_getStream (N := 2) _ _ _ _ (fun s _ => cnt_readModuleList ms s b _))
-      (C := 16 + 8 * (b.size / 8)) (fun _ _ => ?_)).mono (by omega)
-    refine (cnt_bind (cnt_getStream (N := 2) _ _ _ _ (fun s _ => cnt_readUnloadedModuleList ms s b _))
-      (C := 14 + 7 * (b.size / 8)) (fun _ _ => ?_)).mono (by omega)
-    refine (cnt_bind (cnt_getStream (N := 2) _ _ _ _ (fun s _ => (cnt_readMemoryList ms s b _).mono (by omega)))
-      (C := 12 + 6 * (b.size / 8)) (fun _ _ => ?_)).mono (by omega)
-    refine (cnt_bind (cnt_getStream (N := 2) _ _ _ _ (fun s _ => (cnt_readMemory64List ms s b _).mono (by omega)))
-      (C := 10 + 5 * (b.size / 8)) (fun _ _ => ?_)).mono (by omega)
-    refine (cnt_bind (cnt_getStream (N := 2) _ _ _ _ (fun s _ => (cnt_readMemoryInfoList ms s _).mono (by omega)))
-      (C := 8 + 4 * (b.size / 8)) (fun _ _ => ?_)).mono (by omega)
-    refine (cnt_bind (cnt_getStream (N := 1) _ _ _ _ (fun s _ => cnt_readThreadNames ms s b _))
-      (C := 7 + 3 * (b.size / 8)) (fun _ _ => ?_)).mono (by omega)
-    refine (cnt_bind (cnt_getStream (N := 3) _ _ _ _ (fun s _ => (cnt_readThreadInfoList ms s _).mono (by omega)))
-      (C := 4 + 2 * (b.size / 8)) (fun _ _ => ?_)).mono (by omega)
-    refine (cnt_bind (cnt_getStream (N := 1) _ _ _ _ (fun s _ => cnt_readHandleData ms s b _))
-      (C := 3 + 1 * (b.size / 8)) (fun _ _ => ?_)).mono (by omega)
-    refine (cnt_bind (cnt_getStream (N := 3) _ _ _ _ (fun s _ => (cnt_readException s b _).mono (by omega)))
-      (C := 0) (fun _ _ => cnt_pure _)).mono (by omega)
+theorem cnt_readCore (ms : MemSizes) (b : Bytes) (d : Dump) : CntLe (21 + 10 * (b.size / 8)) (readCore ms b d) := by
+  unfold readCore
+  dsimp only
+  refine (cnt_bind (cnt_getStream (N := 3) _ _ _ _ (fun s _ => (cnt_readThreadList ms s b _).mono (by omega)))
+    (C := 18 + 9 * (b.size / 8)) (fun _ _ => ?_)).mono (by omega)
+  refine (cnt_bind (cnt_getStream (N := 2) _ _ _ _ (fun s _ => cnt_readModuleList ms s b _))
+    (C := 16 + 8 * (b.size / 8)) (fun _ _ => ?_)).mono (by omega)
+  refine (cnt_bind (cnt_getStream (N := 2) _ _ _ _ (fun s _ => cnt_readUnloadedModuleList ms s b _))
+    (C := 14 + 7 * (b.size / 8)) (fun _ _ => ?_)).mono (by omega)
+  refine (cnt_bind (cnt_getStream (N := 2) _ _ _ _ (fun s _ => (cnt_readMemoryList ms s b _).mono (by omega)))
+    (C := 12 + 6 * (b.size / 8)) (fun _ _ => ?_)).mono (by omega)
+  refine (cnt_bind (cnt_getStream (N := 2) _ _ _ _ (fun s _ => (cnt_readMemory64List ms s b _).mono (by omega)))
+    (C := 10 + 5 * (b.size / 8)) (fun _ _ => ?_)).mono (by omega)
+  refine (cnt_bind (cnt_getStream (N := 2) _ _ _ _ (fun s _ => (cnt_readMemoryInfoList ms s _).mono (by omega)))
+    (C := 8 + 4 * (b.size / 8)) (fun _ _ => ?_)).mono (by omega)
+  refine (cnt_bind (cnt_getStream (N := 1) _ _ _ _ (fun s _ => cnt_readThreadNames ms s b _))
+    (C := 7 + 3 * (b.size / 8)) (fun _ _ => ?_)).mono (by omega)
+  refine (cnt_bind (cnt_getStream (N := 3) _ _ _ _ (fun s _ => (cnt_readThreadInfoList ms s _).mono (by omega)))
+    (C := 4 + 2 * (b.size / 8)) (fun _ _ => ?_)).mono (by omega)
+  refine (cnt_bind (cnt_getStream (N := 1) _ _ _ _ (fun s _ => cnt_readHandleData ms s b _))
+    (C := 3 + 1 * (b.size / 8)) (fun _ _ => ?_)).mono (by omega)
+  refine (cnt_bind (cnt_getStream (N := 3) _ _ _ _ (fun s _ => (cnt_readException s b _).mono (by omega)))
+    (C := 0) (fun _ _ => cnt_pure _)).mono (by omega)
 
 /-- sum of the bytes of all logged allocations -/
 def totalBytes (as : List Alloc) : Nat := (as.map Alloc.bytes).sum
